@@ -173,6 +173,19 @@ where
             ));
         }
 
+        // The extended domain (which must host the quotient polynomial) has to fit
+        // in the 2-adic subgroup as well.
+        let mut extended_k = k as u32;
+        while (1u128 << extended_k) < (1u128 << k) * (cs.degree() as u128 - 1) {
+            extended_k += 1;
+        }
+        if extended_k > F::S {
+            return Err(io::Error::new(
+                io::ErrorKind::InvalidData,
+                format!("circuit size value (k): {k} is too large for the circuit's degree"),
+            ));
+        }
+
         let domain = EvaluationDomain::new(cs.degree() as u32, k.into());
 
         let mut num_fixed_columns = [0u8; 4];
